@@ -16,6 +16,8 @@ pub fn run(out: &mut Out, tier: &str, rng: &mut Rng) {
             s.extend(&cmd);
             sess::run_case(out, &inst, "sess", &[Ev::Bytes(s.clone()), Ev::Close(close)], flags & 0x10 != 0);
             sess::run_case(out, &inst, "sess", &[Ev::Bytes(s[..s.len() - 2].to_vec()), Ev::Close(close)], true);
+            // the peer is already gone when its (still readable) bytes are processed: the handshake reply cannot be written
+            sess::run_case_wfail(out, &inst, "sess", &[Ev::Bytes(s.clone()), Ev::Close(close)], flags & 0x10 != 0);
             out.count(&format!("close {}", close.tok()));
         }
     }
@@ -69,6 +71,9 @@ pub fn run(out: &mut Out, tier: &str, rng: &mut Rng) {
             // nothing after death matters: sometimes keep sending
             if rng.chance(1, 8) {
                 evs.push(Ev::Bytes(sess::frame(0x20, &[0x01])));
+            }
+            if rng.chance(1, 6) {
+                sess::run_case_wfail(out, &inst, "sess", &evs, true);
             }
             sess::run_case(out, &inst, "sess", &evs, true);
         }
